@@ -91,6 +91,16 @@ def model (f : List String) : String :=
       let entered := (s1.threads 1).wpos > 0 || (s1.threads 1).todo.isEmpty || inStream prog s1 1
       "parked=1 blocked=" ++ (if entered then "0" else "1") ++ " concurrent=" ++ (if entered then "1" else "0")
     | _, _ => "bad-op"
+  | ["heavy", sink, n, r, _mb, _seed, _build] =>
+    -- records of megabytes: no schedule is simulated here.  When every extracted sink body has the shape
+    -- the theorems are about, `Props.C09.stdout_mt_safe` / `stderr_mt_safe` give the answer for every schedule;
+    -- otherwise nothing is claimed (and the real threads are the only witness).
+    match n.toNat?, r.toNat? with
+    | some n, some r =>
+      if (progsOf sink).length = 6 && (progsOf sink).all goodProg then
+        "records=" ++ toString (r + (n - 1) * 1500) ++ " concurrent=0 torn=0 lost=0 dup=0 order=1"
+      else "not-proved"
+    | _, _ => "bad-op"
   | ["stress", sink, n, r, mode, seed, _build] =>
     match n.toNat?, r.toNat?, mode.toNat?, seed.toNat? with
     | some n, some r, some mode, some seed =>
@@ -105,6 +115,13 @@ def judge (f : List String) (ans : String) : String :=
   | ["turn", _sink, sevA, sevB, park, _rep, _build] =>
     let feat := "\tturnstile park-" ++ park ++ " sev" ++ sevA ++ "-" ++ sevB ++ " nt"
     if ans = "parked=1 blocked=1 concurrent=0" then "ok" ++ feat else "bad:" ++ ans ++ feat
+  | ["heavy", _sink, n, r, mb, _seed, build] =>
+    match n.toNat?, r.toNat? with
+    | some n, some r =>
+      let want := "records=" ++ toString (r + (n - 1) * 1500) ++ " concurrent=0 torn=0 lost=0 dup=0 order=1"
+      let feat := "\theavy-" ++ build ++ " threads" ++ toString n ++ " megabytes" ++ mb ++ (if n ≥ 2 then " nt" else "")
+      if ans = want then "ok" ++ feat else "bad:" ++ ans ++ feat
+    | _, _ => "bad-op"
   | ["stress", _sink, n, r, mode, _seed, build] =>
     match n.toNat?, r.toNat? with
     | some n, some r =>
